@@ -5,19 +5,30 @@
    tables of Engine.tables; the removal/creation cascades of useractions.py; the auto-removal loop of
    docmodel.py).  RefsResolve is the property's conjunction as one boolean.
 
-   The statement for ALL modelled actions (C09_full) is refuted: doRemoveColumns regroups every view section of
-   a summary table, its raw section included, so the old summary table loses its raw section until it is
-   auto-removed at the end of the bundle; an action later in the same bundle that adds a column to it (or keeps
-   it alive) leaves a dangling reference (C09_refuted); a section that shows one column twice is regrouped
-   incompletely (C09_dup_refuted).  What is proved: the statement for every bundle of modelled actions in which
-   update_summary_section keeps to its guard (C09_cascade_preserves; the guard is what the two defects break and
-   is evaluated on every recorded bundle), for every bundle without the two regrouping actions with no guard
-   at all (C09_cascade_preserves_partial), for every single action, for the auto-removal loop, for all reachable
-   states, and that removals with back-reference clearing leave no reference to a removed record. *)
+   Proved, for ALL modelled actions and with no hypothesis on update_summary_section other than the one below:
+   every bundle keeps the property (C09_cascade_preserves), hence every reachable state; every single action;
+   the auto-removal loop; removals with back-reference clearing leave no reference to a removed record.
+   RemoveColumn of group-by source columns is covered as the repaired code does it (commit e0ec788: the raw
+   section of the summary table is not regrouped; ae5ee6e: every field of a regrouped section is moved or
+   deleted); the witnesses of the two repaired defects are regression examples.
+
+   The one restriction left: the USER action UpdateSummaryViewSection applied to the raw section of a summary
+   table.  The code accepts it (doBulkUpdateRecord lets tableRef of such a section change), the summary table
+   then keeps a rawViewSectionRef to a section of another table: C09_full is still refuted (C09_refuted), by a
+   witness that fails on the engine too.  run_bundle_guarded is run_bundle with that one case excluded. *)
 From Coq Require Import ZArith List Bool.
 Import ListNotations.
 Require Import Grist.Model.MetaCascade Grist.Proofs.MetaCascade_main Grist.Proofs.MetaCascade_norefs.
 Open Scope Z_scope.
+
+Fixpoint run_bundles (bs : list (list op)) (m : meta) : res meta :=
+  match bs with [] => Ok m | b :: t => bind (run_bundle b m) (run_bundles t) end.
+
+(* AddTable T [A, B]; CreateViewSection(T, new view, group by B): table 2 = T_summary_B with raw section 4 and
+   page section 5 *)
+Definition c09_setup : list (list op) :=
+  [[OAddTable 1 [0; 0] true]; [OCreateSummary 1 0 [3] 2 [0] [2; 0]]].
+Definition c09_before : meta := match run_bundles c09_setup empty_meta with Ok m => m | _ => empty_meta end.
 
 (* ---------------------------------------------------------------------------------------------- *)
 (* the full statement, and its refutation on the faithful model *)
@@ -25,61 +36,54 @@ Open Scope Z_scope.
 Definition C09_full : Prop :=
   forall os m m', RefsResolve m = true -> run_bundle os m = Ok m' -> RefsResolve m' = true.
 
-(* AddTable T [A, B]; CreateViewSection(T, new view, group by B);
-   then one bundle: RemoveColumn T.B (regroups the raw section 4 and the page section 5 of T_summary_B into a
-   new table T_summary), AddColumn T_summary_B.Y *)
-Definition c09_setup : list (list op) :=
-  [[OAddTable 1 [0; 0] true]; [OCreateSummary 1 0 [3] 2 [0] [2; 0]]].
-Definition c09_bad_bundle : list op :=
-  [ORemoveColumnsG [3] [mkRG 4 0 3 1 [] [] [2; 0] [] [7] [(8, 8)] []; mkRG 5 3 0 1 [] [] [] [] [9] [(10, 8)] []];
-   OAddColumn 2 0 0].
-
-Fixpoint run_bundles (bs : list (list op)) (m : meta) : res meta :=
-  match bs with [] => Ok m | b :: t => bind (run_bundle b m) (run_bundles t) end.
-
-Definition c09_before : meta := match run_bundles c09_setup empty_meta with Ok m => m | _ => empty_meta end.
-Definition c09_after : meta := match run_bundle c09_bad_bundle c09_before with Ok m => m | _ => empty_meta end.
+(* UpdateSummaryViewSection(4, []): the raw section of T_summary_B is moved to a new table T_summary; T_summary_B
+   stays (its page section 5 keeps it alive) with rawViewSectionRef = 4, a section of table 3 *)
+Definition c09_raw_bundle : list op := [ORegroup (mkRG 4 0 3 1 [] [] [2; 0] [] [(8, 8)] [])].
+Definition c09_raw_after : meta :=
+  match run_bundle c09_raw_bundle c09_before with Ok m => m | _ => empty_meta end.
 
 Example c09_witness_runs :
   res_ok (run_bundles c09_setup empty_meta) = true /\ RefsResolve c09_before = true /\
-  res_ok (run_bundle c09_bad_bundle c09_before) = true /\ RefsResolve c09_after = false /\
-  (* the dangling cell: a field of section 4 with colRef = 0 *)
-  existsb (fun f => (f_section f =? 4) && (f_col f =? 0)) (m_fields c09_after) = true.
+  res_ok (run_bundle c09_raw_bundle c09_before) = true /\ RefsResolve c09_raw_after = false /\
+  existsb (fun t => (t_id t =? 2) && (t_raw t =? 4)) (m_tables c09_raw_after) = true /\
+  existsb (fun s => (s_id s =? 4) && (s_table s =? 3)) (m_sections c09_raw_after) = true.
 Proof. vm_compute. repeat split; reflexivity. Qed.
 
 Theorem C09_refuted : ~ C09_full.
 Proof.
-  intro H. specialize (H c09_bad_bundle c09_before c09_after).
-  assert (E : RefsResolve c09_after = true).
+  intro H. specialize (H c09_raw_bundle c09_before c09_raw_after).
+  assert (E : RefsResolve c09_raw_after = true).
   { apply H; vm_compute; reflexivity. }
   vm_compute in E. discriminate E.
 Qed.
 
-(* second root cause: a section that shows the same column twice (fields 10 and 11 both show column 6);
-   update_summary_section moves one of them (its descriptor, as recorded from the engine), the other is left
-   pointing at a column of the old summary table, which is auto-removed *)
-Definition c09_dup_bundles : list (list op) :=
-  [[OAddField 5 6]; [ORegroup (mkRG 5 0 3 1 [] [] [2; 0] [] [9] [(11, 8)] [])]].
-Definition c09_dup_before : meta :=
-  match run_bundles [[OAddField 5 6]] c09_before with Ok m => m | _ => empty_meta end.
-Definition c09_dup_bundle : list op := [ORegroup (mkRG 5 0 3 1 [] [] [2; 0] [] [9] [(11, 8)] [])].
+(* ---------------------------------------------------------------------------------------------- *)
+(* regression examples: the witnesses of the two repaired defects on the repaired cascades *)
 
-Theorem C09_dup_refuted :
-  RefsResolve c09_dup_before = true /\
-  exists m', run_bundle c09_dup_bundle c09_dup_before = Ok m' /\ RefsResolve m' = false.
-Proof.
-  split; [vm_compute; reflexivity|].
-  destruct (run_bundle c09_dup_bundle c09_dup_before) as [m'| |] eqn:E.
-  - exists m'. split; [reflexivity|]. vm_compute in E. inversion E; subst m'. vm_compute. reflexivity.
-  - vm_compute in E. discriminate E.
-  - vm_compute in E. discriminate E.
-Qed.
+(* [RemoveColumn T.B, AddColumn T_summary_B.Y]: only the page section 5 is regrouped; the column and its field
+   in the raw section 4 go away with T_summary_B at the end of the bundle *)
+Example c09_regression_raw_section :
+  match run_bundle [ORemoveColumnsG [3] [mkRG 5 0 3 1 [] [] [2; 0] [] [(10, 8)] []]; OAddColumn 2 0 0] c09_before with
+  | Ok m => RefsResolve m && negb (mem 2 (tids m)) && mem 3 (tids m)
+  | _ => false
+  end = true /\
+  (* what the unrepaired doRemoveColumns did, regrouping the raw section 4 as well, is not a run of the model *)
+  res_unmodelled (run_bundle [ORemoveColumnsG [3] [mkRG 4 0 3 1 [] [] [2; 0] [] [(8, 8)] [];
+                                                   mkRG 5 3 0 1 [] [] [] [] [(10, 8)] []]; OAddColumn 2 0 0]
+                             c09_before) = true.
+Proof. vm_compute. split; reflexivity. Qed.
+
+(* section 5 shows column 6 twice (fields 10 and 11): both fields are moved *)
+Example c09_regression_duplicate_field :
+  match run_bundles [[OAddField 5 6]; [ORegroup (mkRG 5 0 3 1 [] [] [2; 0] [] [(10, 8); (11, 8)] [])]] c09_before with
+  | Ok m => RefsResolve m && negb (mem 2 (tids m))
+  | _ => false
+  end = true.
+Proof. vm_compute. reflexivity. Qed.
 
 (* ---------------------------------------------------------------------------------------------- *)
-(* what holds: every bundle of modelled actions in which update_summary_section keeps to its guard (the
-   regrouped section is not the raw/record-card section of a table, only its own fields are moved, and
-   afterwards each of its fields shows a column of the target table): exactly what the two defects break.
-   run_bundle_guarded is run_bundle wherever it is defined. *)
+(* what holds.  run_bundle_guarded: all modelled actions; UpdateSummaryViewSection as a user action only on
+   sections that are not raw sections.  It is run_bundle wherever it is defined. *)
 
 Theorem C09_cascade_preserves : forall os m m',
   RefsResolve m = true -> run_bundle_guarded os m = Ok m' -> RefsResolve m' = true.
@@ -91,19 +95,17 @@ Proof. exact run_bundle_guarded_agrees. Qed.
 Theorem C09_reachable_guarded : forall m, reachable_g m -> RefsResolve m = true.
 Proof. exact reachable_g_resolve. Qed.
 
-(* the guard rejects both witnesses, and accepts a regrouping that behaves: UpdateSummaryViewSection(5, [])
-   on the document of the first witness (the old summary table, left with its raw section only, is
-   auto-removed) *)
+(* the restriction excludes the witness and nothing else of it: the same action on the page section is fine *)
 Example c09_guard_examples :
-  res_unmodelled (run_bundle_guarded c09_bad_bundle c09_before) = true /\
-  res_unmodelled (run_bundle_guarded c09_dup_bundle c09_dup_before) = true /\
-  match run_bundle_guarded [ORegroup (mkRG 5 0 3 1 [] [] [2; 0] [] [9] [(10, 8)] [])] c09_before with
+  res_unmodelled (run_bundle_guarded c09_raw_bundle c09_before) = true /\
+  match run_bundle_guarded [ORegroup (mkRG 5 0 3 1 [] [] [2; 0] [] [(10, 8)] [])] c09_before with
   | Ok m => RefsResolve m && negb (mem 2 (tids m)) && mem 3 (tids m)
   | _ => false
   end = true.
-Proof. vm_compute. repeat split; reflexivity. Qed.
+Proof. vm_compute. split; reflexivity. Qed.
 
-(* without any guard: every bundle that does not run update_summary_section *)
+(* with no restriction at all: every bundle without the user action UpdateSummaryViewSection (RemoveColumn of
+   group-by source columns included) *)
 
 Theorem C09_cascade_preserves_partial : forall os m m',
   no_regroups os = true -> RefsResolve m = true -> run_bundle os m = Ok m' -> RefsResolve m' = true.
